@@ -78,6 +78,7 @@ inductive Step where
   | mk (id : Nat) (c : Chan) (birth due : Int) (nrec : Nat)
   | load | clock (t : Int) | alrm | wake | fin
   | pass (c : Chan) (letters : List Byte) (fault : Fault := .none)
+  | arrive (id n0 n1 : Nat)        -- todo_do: a new message with n0 local / n1 remote recipients is taken into the queue
   | bad
   deriving Repr
 
@@ -200,6 +201,21 @@ def loadSt (s : HSt) : HSt :=
   { s with q0 := (expectedLoad s).1.foldl PQ.insert #[], q1 := (expectedLoad s).2.1.foldl PQ.insert #[],
            done := (expectedLoad s).2.2.foldl PQ.insert #[] }
 
+/-- `todo_do` for one new message: info/<id> is created now (its mtime is the birth time), the channel files are written,
+`pe.dt = now()` and the message goes into `pqchan[c]` for every channel it has recipients on, or into pqdone if it has none.
+Message numbers are inode numbers of existing files: a number in use is never handed out again (no-op). -/
+def arriveSt (s : HSt) (id n0 n1 : Nat) : HSt :=
+  match s.find id with
+  | some _ => s
+  | none =>
+    let m : Msg := { id := id, birth := s.clock, mt0 := s.clock, mt1 := s.clock,
+                     recs0 := if n0 = 0 then none else some (List.replicate n0 true),
+                     recs1 := if n1 = 0 then none else some (List.replicate n1 true) }
+    let s1 : HSt := { s with msgs := s.msgs ++ [m] }
+    let s2 := if n0 = 0 then s1 else s1.setQ .loc ((s1.q .loc).insert { dt := s.clock, id := id })
+    let s3 := if n1 = 0 then s2 else s2.setQ .rem ((s2.q .rem).insert { dt := s.clock, id := id })
+    if n0 = 0 ∧ n1 = 0 then { s3 with done := s3.done.insert { dt := s.clock, id := id } } else s3
+
 def step (s : HSt) : Step → HSt × Ev
   | .bad => (s, .plain "bad")
   | .mk id c birth due nrec =>
@@ -222,5 +238,6 @@ def step (s : HSt) : Step → HSt × Ev
     let s' := finSt s
     (s', .fin (mtList s' .loc) (mtList s' .rem))
   | .pass c letters f => (passSt s c letters f, passEv s c letters f)
+  | .arrive id n0 n1 => (arriveSt s id n0 n1, .plain "n")
 
 end Nq.SchedHist
